@@ -83,24 +83,28 @@ def pkg_json(pkg):
 
 
 # ------------------------------------------------------------------------------------------------ the round trip
-def imported_modules(ns, pkg):
-    """The imported modules, in the order of pkg.modules, fetched from the namespace from_proto returns."""
+def imported_modules(ns, names):
+    """The imported counterparts of the named modules, fetched from the namespace from_proto returns."""
     mods = []
-    for pm in pkg.modules:
+    for name in names:
         obj = ns
-        for part in pm.name.split("."):
+        for part in name.split("."):
             obj = getattr(obj, part)
         if not isinstance(obj, h.Module):
-            raise RuntimeError(f"namespace entry {pm.name} is not a Module")
+            raise RuntimeError(f"namespace entry {name} is not a Module")
         mods.append(obj)
     return mods
 
 
-def roundtrip(pkg):
-    res = dict(p=pkg_json(pkg), q=None, stage=None, err=None, eq_msg=False, eq_bytes=False)
+def roundtrip(pkg, tops=None):
+    """P' = to_proto(the imported top-level modules).  `tops`: names of the modules P was exported from (in that order);
+    default: the last module of P (a single-top export emits its top last)."""
+    if tops is None:
+        tops = [pkg.modules[-1].name] if len(pkg.modules) else []
+    res = dict(p=pkg_json(pkg), tops=tops, q=None, stage=None, err=None, eq_msg=False, eq_bytes=False)
     try:
         ns = h.from_proto(pkg)
-        mods = imported_modules(ns, pkg)
+        mods = imported_modules(ns, tops)
     except Exception as e:
         res["stage"], res["err"] = "from_proto", exc_info(e)
         return res
@@ -110,14 +114,26 @@ def roundtrip(pkg):
         res["stage"], res["err"] = "to_proto", exc_info(e)
         return res
     res["q"] = pkg_json(pkg2)
-    res["eq_msg"] = bool(pkg2 == pkg)
-    res["eq_bytes"] = pkg2.SerializeToString(deterministic=True) == pkg.SerializeToString(deterministic=True)
+    b1, b2 = pkg.SerializeToString(deterministic=True), pkg2.SerializeToString(deterministic=True)
+    res["eq_bytes"] = b1 == b2
+    # a message holding a NaN double is not equal to itself: message equality is then decided by the bytes
+    res["eq_msg"] = bool(pkg2 == pkg) if pkg == pkg else b1 == b2
     return res
+
+
+def top_names(pkg, mods):
+    from hdl21.qualname import qualname
+    return [qualname(m) for m in mods]
 
 
 # ------------------------------------------------------------------------------------------------ package sources
 def from_design(job):
-    top = Builder(job["design"]).build()
+    b = Builder(job["design"])
+    top = b.build()
+    if job.get("tops"):           # a multi-top export, in the given order
+        tops = [b.mods[k] for k in job["tops"]]
+        pkg = h.to_proto(tops, domain=job.get("domain"))
+        return [(pkg, top_names(pkg, tops))]
     return [h.to_proto(top, domain=job.get("domain"))]
 
 
@@ -131,7 +147,8 @@ def from_examples(job):
 
     def spy(*a, **kw):
         pkg = orig(*a, **kw)
-        captured.append(pkg)
+        tops = h.elaborate(a[0] if a else kw["top"])
+        captured.append((pkg, top_names(pkg, tops if isinstance(tops, list) else [tops])))
         return pkg
     NL.to_proto = spy
     h.to_proto = spy
@@ -248,6 +265,28 @@ def from_insts(job):
     return [h.to_proto(top, domain=job.get("domain"))]
 
 
+def live_enums(job):
+    """The enumeration translations, read off the live functions."""
+    import hdl21.proto.exporting as EX
+    import hdl21.proto.importing as IM
+    from vlsirtools import SpiceType
+    rows = []
+    for pre in h.prefix.Prefix:
+        v = EX.export_prefix(pre)
+        back = IM.import_prefix(v)
+        rows.append(["prefix", pre.name, pre.value, vlsir.SIPrefix.Name(v), back.name, back.value])
+    for d in h.PortDir:
+        v = EX.export_port_dir(h.Signal(name="p", direction=d, vis=h.signal.Visibility.PORT))
+        back = IM.import_port_dir(vckt.Port(signal="p", direction=v))
+        rows.append(["dir", d.name, 0, vckt.Port.Direction.Name(v), back.name, 0])
+    for st in SpiceType:
+        x = h.ExternalModule(name="E", port_list=[], spicetype=st)
+        px = EX.export_external_module(x)
+        back = IM.ProtoImporter(vckt.Package()).import_external_module(px)
+        rows.append(["spicetype", st.name, 0, vckt.SpiceType.Name(px.spicetype), back.spicetype.name, 0])
+    return rows
+
+
 SOURCES = dict(design=from_design, example=from_examples, generator=from_generator, pdk=from_pdk, insts=from_insts)
 
 
@@ -259,12 +298,23 @@ def do(job):
         out["err"] = exc_info(e)
         return out
     for pkg in pkgs:
-        out["pkgs"].append(roundtrip(pkg))
+        out["pkgs"].append(roundtrip(*pkg) if isinstance(pkg, tuple) else roundtrip(pkg))
     return out
 
 
+def do_any(job):
+    if job["source"] == "enums":
+        try:
+            return dict(rows=live_enums(job), err=None)
+        except Exception as e:
+            return dict(rows=[], err=exc_info(e))
+    if job["source"] == "names":
+        return dict(rows=[[s, s.split("."), ".".join(s.split("."))] for s in job["names"]], err=None)
+    return do(job)
+
+
 def handler(p):
-    return dict(results=[do(j) for j in p["jobs"]])
+    return dict(results=[do_any(j) for j in p["jobs"]])
 
 
 main(handler)
